@@ -82,6 +82,10 @@ def loop_count(loop, env=None):
             return None
         var = U(loop.target.elts[0])
         it = inner
+    if isinstance(it, ast.Call) and call_name(it) in ("range", "trange", "tqdm.trange") and len(it.args) == 2 and isinstance(it.args[0], ast.Constant) and isinstance(it.args[0].value, int):
+        # range(k, b): b - k iterations, the variable runs from k
+        lo, hi = it.args
+        return ast.BinOp(left=hi, op=ast.Sub(), right=lo), var, start + lo.value
     if isinstance(it, ast.Call) and call_name(it) in ("range", "trange", "tqdm.trange", "tqdm.tqdm") and len(it.args) == 1:
         a = it.args[0]
         if call_name(it) == "tqdm.tqdm":
